@@ -174,3 +174,21 @@ func c12ClosesCycle(v *vm.VM, op opcode.Opcode) bool {
 	}
 	return false
 }
+
+// c12F50Shape: REMOVE about to be executed on a Map that has the key, where the map can be reached from the entry's
+// value (finding F50: vm.go un-counts key and value before dropping the entry).
+func c12F50Shape(v *vm.VM, op opcode.Opcode) bool {
+	es := v.Estack()
+	if op != opcode.REMOVE || es.Len() < 2 {
+		return false
+	}
+	m, ok := es.Peek(1).Item().(*stackitem.Map)
+	if !ok || stackitem.IsValidMapKey(es.Peek(0).Item()) != nil {
+		return false
+	}
+	i := m.Index(es.Peek(0).Item())
+	if i < 0 {
+		return false
+	}
+	return c12Reaches(m.Value().([]stackitem.MapElement)[i].Value, m)
+}
